@@ -39,8 +39,11 @@ func withJoiners(cfg Cfg, n int) Cfg {
 // thorough 36 M states in 17 min at load average 60+ without the apply-lag boxes (more when idle;
 // B9, B9b, B9c are 1.24 M + 4.2 M + 1.6 M states and close in 22 + 82 + 39 s) plus 6.7 M states
 // in 6.5 min at load average 100+ for B10, B10b, B10p, B11, B11b, B11c (0.11 + 4.33 + 0.55 +
-// 1.04 + 0.36 + 0.34 M states; 8 + 276 + 30 + 44 + 19 + 20 s). Every box stops at its share
-// of the internal time budget (100 s quick, 24 min thorough) and reports the bound it completed.
+// 1.04 + 0.36 + 0.34 M states; 8 + 276 + 30 + 44 + 19 + 20 s), plus 4.3 M states in 3.2 min at
+// load average 75 (6 min at 115) for the persist-lag boxes B12, B12b, B12c, B12d, B12e (0.10 +
+// 0.93 + 1.49 + 1.19 + 0.55 M states; 5 + 48 + 71 + 43 + 21 s); quick B12 is 0.056 M states and
+// closes in 3.5-5.5 s. Every box stops at its share of the internal time budget (100 s quick,
+// 32 min thorough) and reports the bound it completed.
 func makeBoxes(tier string) []*Box {
 	thorough := tier == "thorough"
 	pick := func(q, t int) int {
